@@ -432,7 +432,7 @@ def check(ctx):
                 r3.bad(V(r3.id, rg.id, "override-sites:%s:%d" % (name, len(sites)), "expected exactly one CLI override of config.%s, found %d" % (name, len(sites))))
                 continue
             b, st = sites[0]
-            conds = rg.must_conditions(b)
+            conds = rg.must_conditions(b, sequencing=False)
             want_opt = "arg:%s=Some" % name
             want_bool = "arg:%s=true" % name
             if conds in ([want_opt], [want_bool]):
